@@ -157,8 +157,8 @@ COVER = {
     "Leere_Liste": ("full", ["leere_spec"]), "Hinzufügen_Liste": ("full", ["hinzufuegen_spec"]), "Hinzufügen_Liste_Liste": ("full", ["hinzufuegen_liste_spec"]),
     "Einfügen_Liste": ("full", ["einfuegen_spec", "einfuegen_err"]), "Einfügen_Bereich_Liste": ("full", ["einfuegen_bereich_spec", "einfuegen_bereich_err"]),
     "Voranstellen_Liste": ("full", ["voranstellen_spec"]), "Voranstellen_Liste_Liste": ("full", ["voranstellen_liste_spec"]),
-    "Lösche_Element": ("refuted+partial", ["loesche_element_refuted", "loesche_element_partial"]),
-    "Lösche_Bereich": ("refuted+partial", ["loesche_bereich_refuted", "loesche_bereich_partial", "loesche_bereich_crossed"]),
+    "Lösche_Element": ("full", ["loesche_element_spec", "loesche_element_err"]),
+    "Lösche_Bereich": ("full", ["loesche_bereich_spec", "loesche_bereich_err"]),
     "Füllen_Liste": ("full", ["fuellen_spec"]), "Index_Von_Element": ("full", ["index_von_spec", "index_von_value_spec"]),
     "Enthält_Wert": ("full", ["enthaelt_spec", "enthaelt_In"]), "Enthält_Wert_nicht": ("full", ["enthaelt_spec", "enthaelt_In"]),
     "Ist_Leer_Liste": ("full", ["ist_leer_spec"]), "Erste_N_Elemente_Liste": ("full", ["erste_n_spec", "erste_n_is_operator"]),
@@ -173,41 +173,41 @@ COVER = {
     "Entferne_Anzahl_Hinten": ("full", ["entferne_hinten_spec"]), "Entferne_Anzahl_Hinten_Mutierend": ("full", ["entferne_hinten_spec"]),
     "Trim_Anfang": ("full", ["trim_anfang_spec"]), "Trim_Anfang_Wert": ("full", ["trim_anfang_spec"]),
     "Trim_Ende": ("full", ["trim_ende_spec"]), "Trim_Ende_Wert": ("full", ["trim_ende_spec"]),
-    "Trim": ("refuted+bounded", ["trim_refuted", "trim_bounded"]), "Trim_Wert": ("refuted+bounded", ["trim_refuted", "trim_bounded"]),
+    "Trim": ("full", ["trim_spec"]), "Trim_Wert": ("full", ["trim_spec"]),
     "Text_Enthält_Buchstabe": ("full", ["text_enthaelt_buchstabe_In"]), "Text_Anzahl_Buchstabe": ("full", ["text_anzahl_buchstabe_spec"]),
     "Text_Enthält_Text": ("full", ["text_enthaelt_text_spec", "occurs_iff"]), "Text_Anzahl_Text": ("full", ["text_anzahl_text_spec"]),
-    "Text_Anzahl_Text_Nicht_Überlappend": ("refuted+bounded", ["nicht_ueberlappend_refuted", "nicht_ueberlappend_bounded"]),
+    "Text_Anzahl_Text_Nicht_Überlappend": ("full", ["nicht_ueberlappend_spec"]),
     "Beginnt_Mit_Buchstabe": ("full", ["beginnt_mit_buchstabe_spec"]), "Beginnt_Mit_Text": ("full", ["beginnt_mit_text_spec", "prefix_iff"]),
     "Endet_Mit_Buchstabe": ("full", ["endet_mit_buchstabe_spec"]), "Endet_Mit_Text": ("full", ["endet_mit_text_spec", "suffix_iff"]),
     "Text_Leeren": ("full", ["text_leeren_spec"]), "Text_An_Text_Fügen": ("full", ["text_an_text_spec"]), "Buchstabe_An_Text_Fügen": ("full", ["buchstabe_an_text_spec"]),
-    "Text_In_Text_Einfügen": ("refuted+partial", ["text_einfuegen_refuted", "text_einfuegen_partial"]),
-    "Buchstabe_In_Text_Einfügen": ("refuted+partial", ["buchstabe_einfuegen_refuted", "buchstabe_einfuegen_partial"]),
+    "Text_In_Text_Einfügen": ("full", ["text_einfuegen_spec"]),
+    "Buchstabe_In_Text_Einfügen": ("full", ["buchstabe_einfuegen_spec"]),
     "Text_Vor_Text_Stellen": ("full", ["text_vor_text_spec"]), "Buchstabe_Vor_Text_Stellen": ("full", ["buchstabe_vor_text_spec"]),
-    "Lösche_Text": ("refuted+partial", ["loesche_text_refuted", "loesche_text_partial"]),
-    "Lösche_Text_Bereich": ("refuted+partial", ["loesche_text_bereich_refuted", "loesche_text_bereich_partial"]),
-    "Fülle_Text": ("full at code-point level (the executable leaves an ill-formed text when a character shrinks: C12)", ["fuelle_text_spec"]),
+    "Lösche_Text": ("full", ["loesche_text_spec"]),
+    "Lösche_Text_Bereich": ("full", ["loesche_text_bereich_spec"]),
+    "Fülle_Text": ("full", ["fuelle_text_spec"]),
     "Buchstaben_Text_BuchstabenListe": ("full", ["buchstaben_liste_spec"]), "Buchstaben_Text_TextListe": ("full", ["buchstaben_textliste_spec"]),
     "Text_Index_Von_Buchstabe": ("full", ["text_index_von_buchstabe_spec"]),
-    "Text_Index_Von_Text": ("refuted+bounded", ["text_index_von_text_refuted", "text_index_von_text_bounded"]),
+    "Text_Index_Von_Text": ("bounded", ["text_index_von_text_bounded", "text_index_von_text_leer"]),
     "Ist_Text_Leer": ("full", ["ist_text_leer_spec"]),
     "Großschreiben_Wert": ("full", ["grossschreiben_text_spec"]), "Großschreiben": ("full", ["grossschreiben_text_spec"]),
     "Kleinschreiben_Wert": ("full", ["kleinschreiben_text_spec"]), "Kleinschreiben": ("full", ["kleinschreiben_text_spec"]),
     "Polster_Links": ("full", ["polster_links_spec"]), "Polster_Rechts": ("full", ["polster_rechts_spec"]),
-    "Spalte": ("refuted+bounded", ["spalte_refuted", "spalte_bounded"]), "Spalte_Text": ("refuted+bounded", ["spalte_text_refuted", "spalte_text_bounded"]),
-    "Finde_Subtext": ("refuted+bounded", ["finde_subtext_refuted_gleichlang", "finde_subtext_refuted_ende", "finde_subtext_bounded"]),
+    "Spalte": ("full", ["spalte_spec", "spalte_leer"]), "Spalte_Text": ("bounded", ["spalte_text_bounded", "spalte_text_einzeln"]),
+    "Finde_Subtext": ("bounded", ["finde_subtext_bounded"]),
     "Verbinden_Text": ("full", ["verbinden_text_spec"]), "Verbinden_Buchstabe": ("full", ["verbinden_buchstabe_spec"]),
     "Hamming_Distanz": ("full", ["hamming_spec", "hamming_ungleich"]),
-    "Vergleiche_Text": ("refuted+partial", ["vergleiche_refuted", "vergleiche_partial"]),
+    "Vergleiche_Text": ("full", ["vergleiche_spec"]),
     "Spalten_Spaltmenge_Text": ("bounded", ["spaltmenge_bounded"]), "Spalten_SpaltmengeText_Text": ("bounded", ["spaltmenge_bounded"]), "Text_Worte": ("bounded", ["spaltmenge_bounded"]),
     "Tausche": ("full", ["tausche_spec"]), "Quicksort_Ref": ("full", ["quicksort_ref_spec"]), "Quicksort": ("full", ["quicksort_spec"]),
     "Max": ("full", ["max_spec"]), "Max3": ("full", ["max3_spec"]), "Min": ("full", ["min_spec"]), "Min3": ("full", ["min3_spec"]),
     "Clamp": ("full", ["clamp_spec"]), "Sign": ("full", ["sign_spec"]),
-    "Größter_Gemeinsamer_Teiler": ("refuted+partial", ["ggt_refuted", "ggt_spec"]), "Kleinster_Gemeinsamer_Teiler": ("refuted+partial", ["kgv_refuted", "kgv_partial"]),
+    "Größter_Gemeinsamer_Teiler": ("full", ["ggt_spec"]), "Kleinster_Gemeinsamer_Teiler": ("full", ["kgv_spec"]),
     "Ist_Teilbar": ("full", ["ist_teilbar_spec"]), "Gerade_Zahl": ("full", ["gerade_spec"]), "Fakultät": ("full (0..20)", ["fakultaet_spec"]),
     "Teilerzerlegung": ("full", ["teiler_spec", "teiler_sorted_desc"]),
-    "Floor": ("refuted+partial", ["floor_refuted", "floor_partial", "floor_integers"]), "Ceil": ("refuted+partial", ["ceil_refuted", "ceil_partial"]), "Trunc": ("full", ["trunc_spec"]),
+    "Floor": ("full", ["floor_spec", "floor_integers"]), "Ceil": ("full", ["ceil_spec", "ceil_integers"]), "Trunc": ("full", ["trunc_spec"]),
     "Höchste_ListeZ": ("full", ["hoechste_spec"]), "Kleinste_ListeZ": ("full", ["kleinste_spec"]),
-    "Mindestens_Liste": ("refuted+partial", ["mindestens_refuted", "mindestens_partial"]), "Höchstens_Liste": ("refuted+partial", ["hoechstens_refuted", "hoechstens_partial"]),
+    "Mindestens_Liste": ("full", ["mindestens_spec"]), "Höchstens_Liste": ("full", ["hoechstens_spec"]),
     "Zwischen_Liste": ("full", ["zwischen_spec"]), "Absolute_Häufigkeit": ("full", ["absolute_haeufigkeit_spec"]),
 }
 
@@ -476,7 +476,7 @@ def c_function_text(src, name):
     return None
 
 
-C_PRIMS = {"lists.c": ["grow_if_needed", "efficient_list_append", "efficient_list_prepend", "efficient_list_append_list", "efficient_list_prepend_list", "CLAMP",
+C_PRIMS = {"lists.c": ["grow_if_needed", "efficient_list_append", "efficient_list_prepend", "efficient_list_append_list", "efficient_list_prepend_list",
                        "efficient_list_delete_range", "efficient_list_insert", "efficient_list_insert_range", "Aneinandergehaengt_Buchstabe_Ref"],
            "strings.c": ["Text_Zu_ByteListe", "ByteListe_Zu_Text"],
            "text_iterator.c": ["TextIterator_von_Text", "TextIterator_Zuende", "TextIterator_Buchstabe", "TextIterator_Naechster"]}
